@@ -27,28 +27,28 @@ import sysgen
 
 LEAN_MODULE = "PydjinniModel.Props.C15"
 THEOREMS = [
-    "Pydjinni.Gen.joinL_splitU",
-    "Pydjinni.Gen.convertL_snake",
-    "Pydjinni.Gen.convert_snake_injective_on_lower",
-    "Pydjinni.Gen.relHeader_eq_cpp",
-    "Pydjinni.Gen.relSource_eq_cpp",
-    "Pydjinni.Gen.relHeader_eq_cppcli",
-    "Pydjinni.Gen.relSource_eq_cppcli",
-    "Pydjinni.Gen.relSource_eq_java",
-    "Pydjinni.Gen.relName_injective",
-    "Pydjinni.Gen.relName_injective_java",
-    "Pydjinni.Gen.cpp_default_injective",
-    "Pydjinni.Gen.objc_same_namespace_injective",
-    "Pydjinni.Gen.jni_namespace_dropped",
-    "Pydjinni.Gen.objcpp_namespace_dropped",
-    "Pydjinni.Gen.yaml_namespace_dropped",
-    "Pydjinni.Gen.pascal_conversion_collides",
-    "Pydjinni.Gen.base_suffix_collides",
-    "Pydjinni.Gen.objc_concatenation_collides",
-    "Pydjinni.Gen.anonymous_function_namespace_dropped",
-    "Pydjinni.Gen.no_collisions_nodup",
-    "Pydjinni.Gen.nodup_noOverwrite",
-    "Pydjinni.Sys.write_unconditional",
+    "Pydjinni.GenC.joinL_splitU",
+    "Pydjinni.GenC.convertL_snake",
+    "Pydjinni.GenC.convert_snake_injective_on_lower",
+    "Pydjinni.GenC.relHeader_eq_cpp",
+    "Pydjinni.GenC.relSource_eq_cpp",
+    "Pydjinni.GenC.relHeader_eq_cppcli",
+    "Pydjinni.GenC.relSource_eq_cppcli",
+    "Pydjinni.GenC.relSource_eq_java",
+    "Pydjinni.GenC.relName_injective",
+    "Pydjinni.GenC.relName_injective_java",
+    "Pydjinni.GenC.cpp_default_injective",
+    "Pydjinni.GenC.objc_same_namespace_injective",
+    "Pydjinni.GenC.jni_namespace_dropped",
+    "Pydjinni.GenC.objcpp_namespace_dropped",
+    "Pydjinni.GenC.yaml_namespace_dropped",
+    "Pydjinni.GenC.pascal_conversion_collides",
+    "Pydjinni.GenC.base_suffix_collides",
+    "Pydjinni.GenC.objc_concatenation_collides",
+    "Pydjinni.GenC.anonymous_function_namespace_dropped",
+    "Pydjinni.GenC.no_collisions_nodup",
+    "Pydjinni.GenC.nodup_noOverwrite",
+    "Pydjinni.SysC.write_unconditional",
 ]
 LEVEL = "proof"
 TRUSTED = ["sysworker.py adapter (configuration and declaration dumps are the model's inputs)"]
